@@ -1069,11 +1069,33 @@ theorem recanonList_issues (env : Env) : ∀ (l : List RNode),
   | n :: ns => by simp [recanonList, tagsList, recanonNode_issues env n, recanonList_issues env ns]
 end
 
-/-- Re-resolving an already identified tag from its short form (`str(tag)`) gives the same entry and
-remainder and no issue — C03's `short_long_fixpoint`, here as a hypothesis on the text (the driver reports it
-for every case). -/
+/-- Re-resolving an already identified tag from its short form (`str(tag)`) finds an entry again, raises no
+issue and leaves a remainder that is not longer — a consequence of C03's `short_long_fixpoint` (same entry, same
+remainder) for well-formed vocabularies; here a hypothesis on the text, evaluated by the driver on every case. -/
 def LookupStable (env : Env) (text : Str) : Prop :=
-  ∀ t ∈ tagsList (parse env text).root0, t.entry.isSome = true → canon env t = (t, [])
+  ∀ t ∈ tagsList (parse env text).root0, t.entry.isSome = true →
+    (canon env t).2 = [] ∧ (canon env t).1.extVal.length ≤ t.extVal.length
+
+theorem canon_keeps (env : Env) (t : RTag) :
+    (canon env t).1.span = t.span ∧ (canon env t).1.org = t.org ∧ (canon env t).1.ns = t.ns := by
+  unfold canon
+  split
+  · exact ⟨rfl, rfl, rfl⟩
+  · simp only []
+    split <;> exact ⟨rfl, rfl, rfl⟩
+
+theorem canon_noissue_entry (env : Env) (t : RTag) (h : (canon env t).2 = []) :
+    (canon env t).1.entry.isSome = true := by
+  unfold canon at h ⊢
+  split
+  · rename_i hc; simp [hc] at h
+  · rename_i hc
+    simp only [hc] at h
+    simp only [] at h ⊢
+    split
+    · rfl
+    · rename_i hf; simp [hf] at h
+    · rename_i hf; simp [hf] at h
 
 theorem root1_ok (env : Env) (text : Str) (hst : LookupStable env text) :
     ∀ t ∈ tagsList (parse env text).root1, TagOK text t := by
@@ -1084,7 +1106,13 @@ theorem root1_ok (env : Env) (text : Str) (hst : LookupStable env text) :
   have ok0 := root0_ok env text t0 h0'
   cases he : t0.entry with
   | none => exact (canon_ok env ok0 he).1
-  | some e => rw [hst t0 h0' (by simp [he])]; exact ok0
+  | some e =>
+    obtain ⟨h2, hlen⟩ := hst t0 h0' (by simp [he])
+    obtain ⟨hs, ho, hn⟩ := canon_keeps env t0
+    have hsome := canon_noissue_entry env t0 h2
+    refine ⟨by rw [hs]; exact ok0.lt, by rw [hs]; exact ok0.le, by rw [ho, hs]; exact ok0.org,
+      by rw [hn, ho]; exact ok0.ns, by rw [ho]; have := ok0.ext; omega, fun hnone => ?_⟩
+    rw [hnone] at hsome; simp at hsome
 
 theorem lookup_ok (env : Env) (text : Str) (hst : LookupStable env text) :
     ∀ i ∈ (parse env text).lookup, IssueOK text i := by
@@ -1095,7 +1123,7 @@ theorem lookup_ok (env : Env) (text : Str) (hst : LookupStable env text) :
   have ok0 := root0_ok env text t0 h0'
   cases he : t0.entry with
   | none => exact (canon_ok env ok0 he).2 i hi
-  | some e => rw [hst t0 h0' (by simp [he])] at hi; simp at hi
+  | some e => rw [(hst t0 h0' (by simp [he])).1] at hi; simp at hi
 
 /-! #### the index pairs of each rule -/
 
@@ -1847,8 +1875,8 @@ theorem string_ok (env : Env) (ph : Bool) (text : Str) : ∀ i ∈ S env ph text
 /-- **Tag-relative indices.** For every schema / environment / placeholder mode / text: every issue reported by
 `validate` that names a tag (span `(s, e)`) and carries an index pair `(a, b)` has `a ≤ b ≤ e − s`, and the
 tag lies in the text (`s ≤ e ≤ len(text)`, from C02's `nesting_depth` / `tiling`) — the premise of
-`C12.offsets_in_range`.  Hypotheses: `hst` — re-resolving an identified tag from its short form changes nothing
-(C03's fixpoint; reported per case by the driver); `hd` — either no definitions are declared, or the value of a
+`C12.offsets_in_range`.  Hypotheses: `hst` — re-resolving an identified tag from its short form succeeds without an
+issue and does not lengthen the remainder (C03's fixpoint; evaluated per case by the driver); `hd` — either no definitions are declared, or the value of a
 Def tag is located in the Def tag itself (fixes/C01_def_value_char_index.diff; without it
 `def_value_index_counterexample`). -/
 theorem issue_indices_in_tag (env : Env) (ph : Bool) (text : Str) (hst : LookupStable env text)
